@@ -1,5 +1,5 @@
 CONSTANTS Mags = {1, 8} Pages <- PagesMix Rows = {1} Cids = {1, 2} Nats = {0} Flofs = {} Progs <- NoProgs
-          HdrFaults <- HdrAll RowFaults <- RowFew PktFaults = {} TripFaults = {} MaxFaults = 1 MaxPk = 6 FaultFrom = {0}
+          HdrFaults <- HdrAll RowFaults <- RowFew PktFaults = {} TripFaults = {} FlofFaults <- NoFlofFaults MaxFaults = 1 MaxPk = 6 FaultFrom = {0}
 SPECIFICATION GSpec
 VIEW gview
 INVARIANT DumpF
